@@ -56,6 +56,16 @@ def r1_r2(ctx, Fs):
     for cfg, F in Fs.items():
         b, ip, v = c10.exact_form(ctx, F)
         w = where(b)
+        cf = c10.compare_form(v)
+        if cf is not None:
+            poly, table = cf
+            flip = 1 if poly == spec else -1 if poly == -spec else 0
+            polys[cfg] = poly * flip if flip else poly
+            ctx.check('C11.R1', 'determinant@' + cfg, flip != 0, 'comparison of a polynomial against zero', 'identical polynomial', w, key_extra='det:' + cfg)
+            got = {s_: table[s_ * flip] for s_ in (-1, 0, 1)} if flip else table
+            ctx.check('C11.R2', 'sign-map@' + cfg, flip != 0 and got == {-1: -1, 0: 0, 1: 1}, 'determinant negative/zero/positive -> %s' % [got[-1], got[0], got[1]],
+                      '-1.0 / 0.0 / +1.0 for negative / zero / positive determinant', w, key_extra='sign:%s:%s' % (cfg, [got[-1], got[0], got[1]]))
+            continue
         poly, chain = c10.find_poly(v)
         if poly is None or I.single_atom(poly) is not None:
             ctx.incomplete('C11.R1', 'polynomial@' + cfg, 'returned value %s is not sign-extraction(polynomial)' % repr(v)[:160], w)
